@@ -96,6 +96,36 @@ Proof.
   - apply has_ty_VDyn in Hty as (Ht & _). subst t. cbn [min_width] in Hz. discriminate.
 Qed.
 
+(* ... and there is exactly one of them, the zero value of the type *)
+Lemma zero_width_members_val : forall {T} (proj : T -> ty) (l : list tval) (ts : list T),
+  Forall (fun v => forall t, has_ty v t = true -> min_width t = 0 -> v = zero_val t) l ->
+  Forall2 (fun x t => has_ty x (proj t) = true) l ts ->
+  fold_right (fun t a => min_width (proj t) + a) 0 ts = 0 -> l = map (fun t => zero_val (proj t)) ts.
+Proof.
+  intros T proj l ts IH HF. induction HF as [|x t l' ts' Hx HF' IHF]; intro Hz; [reflexivity|].
+  inversion IH as [|x' l'' Hx' IH']; subst. cbn [fold_right] in Hz. cbn [map].
+  rewrite <- (Hx' (proj t) Hx) by lia. rewrite <- (IHF IH') by lia. reflexivity.
+Qed.
+
+Lemma zero_width_val : forall v t, has_ty v t = true -> min_width t = 0 -> v = zero_val t.
+Proof.
+  induction v as [w b|b|s|l IH|kvs IH|l IH|t' v IH] using tval_ind2; intros t Hty Hz.
+  - apply has_ty_VNum in Hty as (s & Ht & Hw & Hb). subst t.
+    destruct s; cbn [scalar_width] in Hw; try discriminate; cbn [min_width] in Hz; discriminate.
+  - apply has_ty_VBool in Hty. subst t. cbn [min_width] in Hz. discriminate.
+  - apply has_ty_VStr in Hty as [Ht _]. subst t. cbn [min_width] in Hz. discriminate.
+  - apply has_ty_VList in Hty as (t' & Ht & _ & _). subst t. cbn [min_width] in Hz. discriminate.
+  - apply has_ty_VMap in Hty as (tk & tv & Ht & _ & _). subst t. cbn [min_width] in Hz. discriminate.
+  - apply has_ty_VTup in Hty as [(ts & Ht & HF)|[(n & fs & Ht & HF)|[[Ht Hl]|[Ht Ho]]]]; subst t.
+    + cbn [min_width] in Hz. cbn [zero_val]. f_equal.
+      exact (zero_width_members_val (fun t => t) l ts IH HF Hz).
+    + cbn [min_width] in Hz. cbn [zero_val]. f_equal.
+      exact (zero_width_members_val (@snd string ty) l fs IH HF Hz).
+    + subst l. reflexivity.
+    + cbn [min_width] in Hz. discriminate.
+  - apply has_ty_VDyn in Hty as (Ht & _). subst t. cbn [min_width] in Hz. discriminate.
+Qed.
+
 (* hence the members of one list (the entries of one map) are all written on at least one
    byte, or all on none *)
 Lemma uniform_elems : forall t' (l : list tval),
